@@ -273,19 +273,23 @@ where
     J: IntoIterator,
     J::Item: Borrow<FreePoint>,
 {
-    let scalars: Vec<Scalar> = scalars.into_iter().map(|s| *s.borrow()).collect();
-    let mut n = 0usize;
+    // no intermediate copy of the scalars (they may be secrets)
+    let mut si = scalars.into_iter();
+    let mut pi = points.into_iter();
+    let mut n = 0u64;
     let mut acc = FreePoint::zero();
-    for (i, p) in points.into_iter().enumerate() {
-        n = i + 1;
-        // mirror dalek: inconsistent lengths are a panic, not a silent truncation
-        let s = scalars
-            .get(i)
-            .unwrap_or_else(|| panic!("free-module MSM: more points than scalars ({})", scalars.len()));
-        acc.add_scaled(s, p.borrow());
+    loop {
+        match (si.next(), pi.next()) {
+            (Some(s), Some(p)) => {
+                acc.add_scaled(s.borrow(), p.borrow());
+                n += 1;
+            },
+            (None, None) => break,
+            // mirror dalek: inconsistent lengths are a panic, not a silent truncation
+            _ => panic!("free-module MSM: scalars and points differ in length (after {} pairs)", n),
+        }
     }
-    assert_eq!(n, scalars.len(), "free-module MSM: scalars and points differ in length");
-    add_work(n as u64);
+    add_work(n);
     acc
 }
 
